@@ -139,6 +139,17 @@ func c14Sweep(m *minify.M, in ioInput, rng *h.RNG, maxK int, maxOff int) *c14Res
 	} else {
 		res.tags["input=syntax-error"]++
 	}
+	if n == 0 {
+		// no Write call at all, not even the zero-length probe: a writer that is already broken can never be noticed
+		sw := &stickyW{k: 1}
+		var err error
+		if crash := h.Safely(c14Timeout, func() { err = m.Minify(in.mt, sw, bytes.NewReader(in.data)) }); crash != "" {
+			res.add("crash", "m.Minify with failing writer: "+crash, "sticky writer k=1 of n=0 calls", "")
+		} else if err == nil && valid {
+			res.evals++
+			res.add("fail", "Minify never calls Write (no probe): a writer that fails from its first call is reported as success", "sticky writer k=1 of n=0 calls", "err=nil, 0 write calls")
+		}
+	}
 	// ---- writer sweep ----
 	ks := make([]int, 0, n+1)
 	if n+1 <= maxK {
@@ -365,6 +376,7 @@ func init() {
 			}
 		}
 		inputs = append(inputs, ioInvalid...)
+		inputs = append(inputs, ioTruncated(c.Rng.Fork(), c.N(12, 60))...)
 		if c.Replay != "" {
 			if in, ok := ioReplayInput(c.Replay); ok {
 				inputs = append([]ioInput{in}, inputs...)
